@@ -30,6 +30,7 @@ func c08Extra(c *Ctx) {
 	c.Min("fixed-array-bound", "guarded fixed-array index sites in the front ends", n, 2)
 	c08SpecNames(c, p, p.Pkg("internal/parser"), p.Pkg("internal/parser/w2parser"))
 	c08ReceiverNames(c, p, p.Pkg("internal/printer"), p.Pkg("internal/printer/w2printer"))
+	c08LiteralStart(c, p, p.Pkg("internal/scanner"))
 	nf := 0
 	for _, rel := range []string{"internal/scanner", "internal/wat/scanner", "internal/native/scanner"} {
 		if pk := p.MustPkg("offset-frame", rel); pk != nil {
